@@ -408,3 +408,17 @@ def run(index, rep, tier):
             rep.check(ok, "R13.8", ys.qualname, "document variable %s survives from one file to the next" % attr, fn_where(ys), "%s is reset before the first token of every stream" % attr,
                       "NexusTreeDataYielder._yield_items_from_stream reads the next file without resetting `self.%s`, which %s sets while parsing and NexusReader.__init__ starts at %s: one iterator instance serves all files, so the value declared by file 1 (NTAX=3) governs file 2 - its TRANSLATE block is refused with UndefinedTaxonError although the same two files read one after the other into a tree list are fine" % (attr, wf.qualname, norm(consts[attr].value)))
         rep.floor("R13.8", "document variables re-assigned while parsing", 1, len(written))
+
+    # ---- R13.9 members that were there before the document are recognised on every route
+    with rep.section("R13.9"):
+        rep.rule("R13.9", "NeXML: whether an <otu> is matched by label against the members the namespace already had does not depend on the reading route: in _parse_taxon_namespaces no test on self.attached_taxon_namespace decides it (the attached mode only chooses which namespace object is used) - the list and single-tree routes hand in the caller's namespace through a factory, without attaching it")
+        ptn = index.function("dendropy.dataio.nexmlreader.NexmlReader._parse_taxon_namespaces")
+        g = cfg_of(ptn)
+        tests = [t for t in g.nodes if t.kind == "test" and "attached_taxon_namespace" in norm(t.ast)]
+        fills = [a for a in ast.walk(ptn.node) if isinstance(a, ast.Assign) and isinstance(a.targets[0], ast.Subscript) and "label" in norm(a.targets[0].slice) and "map" in norm(a.targets[0].value)]
+        if not fills:
+            raise AnalysisError("R13.9: the label map of pre-existing members is no longer filled in _parse_taxon_namespaces")
+        for t in tests:
+            rep.check(False, "R13.9", ptn.qualname, "label matching decided by the attached-namespace mode", fn_where(ptn, t.stmt), "",
+                      "_parse_taxon_namespaces matches <otu> labels against existing members only under `%s`: the file iterator and an attached data set set that attribute, TreeList.get / read and Tree.get pass the caller's namespace through a factory instead, so on those routes every read adds the document's taxa again (4 -> 8 -> 12 taxa for three reads into one namespace) while the other routes re-use them - trees of one source end up on different taxa depending on the route" % norm(t.ast)[:60])
+        rep.ob("R13.9", fn_where(ptn), "_parse_taxon_namespaces: %d test(s) on attached_taxon_namespace, label map filled at %d place(s)" % (len(tests), len(fills)), not tests)
